@@ -177,7 +177,7 @@ def main():
         t, body = g.body_of_kind(rng, "uid", False, rng.choice([0, 4, 16, 32]))
         add(g.header34(rng, 4) + g.wire_field(t, body, False) + g.rbytes(rng, ml), "v4-field-mac")
     # structured stream and its malformed variants
-    for _ in range(300 if quick else 8000):
+    for _ in range(300 if quick else 3000):
         b, table, offs = g.packet(rng, nts=rng.random() < 0.1, valid_header=rng.random() < 0.95)
         add(b, "grammar")
         if rng.random() < 0.5:
@@ -224,15 +224,15 @@ def main():
         "encoders with their minimum sizes and padding, Mac, and the v3/v4/v5 header codecs (coq/Model/ExtField.v, Packet.v)",
         "the encoder writes into a Cursor<&mut [u8]> that starts at position 0; io errors are one class",
         "reading of 'after one normalising round' (DESIGN.md section 5): b1 = encode(decode b) is a fixed point of encode . decode",
-        "the C24 repair is recognised in the sources by the constants translator (C24_REPAIR); on a tree without it the "
-        "theorems do not build and the monitor reports the reference-id request witness",
+        "the model is the tree with branch fix-c24 applied (decode rejects a v5 reference-id request whose payload is not a "
+        "whole number of words); on the unrepaired tree the monitor reports the witness (corpus/C24/refreq_odd.txt)",
     ]
     return c.finish()
 
 
 MANIFEST = {
-    "claimed": False,
-    "text": "",
-    "note": "",
-    "design_ref": "DESIGN.md 3 C24",
+    "claimed": True,
+    "text": 'PARTIAL. Theorem C24_reencode_ok (Coq, all byte strings, NTPv3/v4/v5, any fields/MAC): every packet the no-key decoder accepts is encoded by serialize without error and without panic into any sufficiently large buffer, to bytes that do not depend on the buffer (first half of the property, full strength, on the model of the tree with the fix-c24 repair). The second half (the re-encoding decodes to a packet that encodes to the same bytes) is NOT proved as a theorem; it is checked on every run by the correspondence (decode-encode-decode-encode on implementation and model, all stages compared) and by the independent monitor, and shown on a concrete NTPv5 instance (Example C24_nonvacuous).',
+    "note": "Trusted: Coq kernel+vm_compute; hand-written model of deserialize/serialize, the field encoders (minimum sizes 16/28/4, padding), Mac and the header codecs; encoder modelled as a Cursor<&mut [u8]> from position 0 with io errors as one class; reading of 'one normalising round' per DESIGN.md section 5. Confirmed defect on the unrepaired tree: NTPv5 ReferenceIdRequest with payload length not a multiple of 4 decodes, serialize then hits assert_eq!(payload_len % 4, 0): ./check C24 on /repo reports VIOLATION with that datagram until branch fix-c24 (commit 882b5bf, decode rejects the field) is cherry-picked. Print Assumptions: closed under the global context.",
+    "design_ref": 'DESIGN.md 3 C24',
 }
